@@ -278,7 +278,8 @@ impl Array8 {
         let kxq1 = cursor.read_f64_le().map_err(insufficient_data("kxq1"))?;
 
         // Read num_at_cur_min (for Array8, this is num_zeros since cur_min=0)
-        let num_zeros = cursor
+        // (redundant: recomputed from the registers below, so that it cannot disagree with them)
+        let _num_zeros = cursor
             .read_u32_le()
             .map_err(insufficient_data("num_zeros"))?;
         let _aux_count = cursor
@@ -299,6 +300,15 @@ impl Array8 {
         estimator.set_kxq0(kxq0);
         estimator.set_kxq1(kxq1);
         estimator.set_out_of_order(ooo);
+
+        // A register holds a coupon value (6 bits)
+        if let Some(slot) = data.iter().position(|&v| v > 63) {
+            return Err(Error::deserial(format!(
+                "register {slot} exceeds 63: {}",
+                data[slot]
+            )));
+        }
+        let num_zeros = data.iter().filter(|&&v| v == 0).count() as u32;
 
         Ok(Self {
             lg_config_k,
